@@ -92,8 +92,42 @@ class TreeCodec(object):
             if f in amap:
                 setattr(p, amap[f], v)
         buf = PacketBuffer()
-        p.write_fields(buf)
-        return K.get_id(self.ctx), buf.get_writable()
+        try:
+            p.write_fields(buf)
+            return K.get_id(self.ctx), buf.get_writable()
+        except Exception:
+            # the tree's own encoder refuses a value the harness wants to
+            # put on the wire: encode the plain definition independently (the
+            # field *types* are still taken from the tree)
+            payload = self._encode_by_definition(K, p)
+            if payload is None:
+                raise
+            return K.get_id(self.ctx), payload
+
+    _CODES = {'VarInt': 'varint', 'VarLong': 'varlong', 'Long': 'long',
+              'Integer': 'int', 'Short': 'short', 'UnsignedShort': 'ushort',
+              'Byte': 'byte', 'UnsignedByte': 'ubyte', 'Boolean': 'bool',
+              'Float': 'float', 'Double': 'double', 'String': 'string',
+              'UUID': 'uuid', 'VarIntPrefixedByteArray': 'bytes_v'}
+
+    def _encode_by_definition(self, K, p):
+        try:
+            definition = K.get_definition(self.ctx)
+        except Exception:
+            return None
+        if definition is None:
+            return None
+        out = b''
+        for field in definition:
+            for attr, typ in field.items():
+                code = self._CODES.get(getattr(typ, '__name__', None))
+                if code is None:
+                    return None
+                v = getattr(p, attr)
+                if code in ('varint', 'varlong') and v < 0:
+                    v &= (1 << (32 if code == 'varint' else 64)) - 1
+                out += ref.encode_field(code, v)
+        return out
 
     def has_field(self, name, field):
         path, cname, amap = ATTR[name]
